@@ -132,6 +132,7 @@ def c10(tier, seed):
         r = run_tlc("MC_GGM", "GGM_full4.cfg", workers=10, timeout=1800, tag="C10-full4")
         out.add_tlc(r, "MC_GGM/GGM_full4.cfg")
     out.add_vh(run_vh(["ggm-pairs", "--stride", 1 if thorough else 8, "--seed", seed]), only={"C10"})
+    out.add_vh(run_vh(["ggm-sparse", "--stride", 1 if thorough else 6, "--seed", seed], timeout=3000), only={"C10"})
     _ggm_trace(out, "C10", seed, 8 if thorough else 2, 256 if thorough else 80)
     _ggm_trace(out, "C10", seed + 7, 2 if thorough else 1, 256, order_offset=6)   # complete puncturing: all 256 inputs
     _ggm_unbounded(out, "C10", thorough)
@@ -507,6 +508,8 @@ def c03(tier, seed):
     for k in range(8 if thorough else 1):
         out.add_vh(run_vh(["cipher-check", "--seed", seed + k, "--groups", 96 if thorough else 16], timeout=3000), only={"C03"})
     out.add_vh(run_vh(["length-sweep", "--prop", "C03", "--seed", seed, "--max", 520 if thorough else 200], timeout=3000), only={"C03"})
+    # "longer sequences": the per-report nonce must not live in a small space
+    out.add_vh(run_vh(["nonce-space", "--n", 600000 if thorough else 200000], timeout=3000), only={"C03"})
     return out
 
 
@@ -695,6 +698,8 @@ def c18(tier, seed):
     out.add_vh(run_vh(["agg-replay", "--lines", lp, "--seed", seed, "--scale", 3, "--perms", 3], timeout=3000), only={"C18"})
     out.add_vh(run_vh(["agg-replay", "--lines", lp, "--seed", seed + 1, "--scale", 250 if thorough else 45,
                        "--perms", 4 if thorough else 3], timeout=3000), only={"C18"})
+    # populations made of groups exactly at the threshold (no model line needed: Expected = all of them)
+    out.add_vh(run_vh(["agg-replay", "--flood", 200 if thorough else 80, "--seed", seed + 4], timeout=3000), only={"C18"})
     # pool sizes that do not divide a power of two (a partition of the tag space by worker goes wrong there)
     out.add_vh(run_vh(["agg-replay", "--lines", lp, "--seed", seed + 3, "--scale", 100 if thorough else 60, "--perms", 1,
                        "--pools", "3,5,6,7,9,11,13,15" if thorough else "5,7,13"], timeout=3000), only={"C18"})
